@@ -256,9 +256,10 @@ type c13Case struct {
 	Scenario string    `json:"scenario"`
 	Mode     string    `json:"mode"` // free | forced
 	Seed     int64     `json:"seed"`
-	Deny     bool      `json:"deny,omitempty"`       // destination refuses the source's entries
-	Keyed    bool      `json:"keyed,omitempty"`      // all logs use one link-encrypting codec, payloads of 9 KiB, skip references
-	SlowIO   bool      `json:"slow_store,omitempty"` // every block write takes 120 ms while the workers run
+	Deny     bool      `json:"deny,omitempty"`           // destination refuses the source's entries
+	Keyed    bool      `json:"keyed,omitempty"`          // all logs use one link-encrypting codec, payloads of 9 KiB, skip references
+	SlowIO   bool      `json:"slow_store,omitempty"`     // every block write takes 120 ms while the workers run
+	SlowPub  bool      `json:"slow_manifests,omitempty"` // manifest writes take 300 ms while the workers run, entry writes are immediate
 	Workers  [][]c13Op `json:"workers"`
 	Park     *c13Park  `json:"park,omitempty"`
 }
@@ -285,6 +286,9 @@ func (c c13Case) signature() string {
 	}
 	if c.SlowIO {
 		s += "|slow-store"
+	}
+	if c.SlowPub {
+		s += "|slow-manifests"
 	}
 	return s
 }
@@ -970,6 +974,9 @@ func (t *c13Tally) runCase(c c13Case) *c13Run {
 		if c.SlowIO {
 			r.api.d.stall = "brief"
 		}
+		if c.SlowPub {
+			r.api.d.stall = "manifest"
+		}
 		close(ready)
 	}()
 	select {
@@ -1180,6 +1187,17 @@ func runC13(seed int64, tier string, outDir string) *result {
 			pubB = append(pubB, c13Op{Kind: "pause", Arg: 600}, c13Op{Kind: "multihash"})
 		}
 		c.Workers = [][]c13Op{app, pubA, pubB}
+		t.runCase(c)
+	}
+
+	// 6. a publication that begins while another one is still being written (manifest writes take
+	//    300 ms, entries none): an append that returned in between is named by the later publication
+	for i := 0; i < 2; i++ {
+		c := c13Case{Scenario: "random", Mode: "free", Seed: seed*15485863 + int64(i), SlowPub: true}
+		pubA := []c13Op{{Kind: "multihash"}}
+		app := []c13Op{{Kind: "pause", Arg: 500 + 200*i}, {Kind: "append"}} // pause unit: 100 us
+		pubB := []c13Op{{Kind: "pause", Arg: 1500 + 300*i}, {Kind: "multihash"}}
+		c.Workers = [][]c13Op{pubA, app, pubB}
 		t.runCase(c)
 	}
 
